@@ -8,7 +8,7 @@
    PARTIAL: the header of the reject (file names) round trip is decided by the runs (see C12). *)
 From Coq Require Import List ZArith NArith Bool.
 Import ListNotations.
-From RQ Require Import Base Apply Parser Writer Quilt WriterProofs QuiltProofs.
+From RQ Require Import Params Base Apply Parser Writer Quilt WriterProofs QuiltProofs.
 
 Theorem C13_hunks_roundtrip :
   forall hs, Forall wf_phunk hs -> forall out rest fuel acc,
@@ -85,3 +85,8 @@ Theorem C13_rej_content :
     else do h <- write_fp_header fp; do hs <- write_hunks (failed_hunks (pf_hunks fp) (r_hunks rep)); Ok (h ++ hs).
 Proof. reflexivity. Qed.
 Print Assumptions C13_rej_content.
+
+(* read from the source on every run: both drivers write the rejects after the modified files are saved and the
+   emptied directories removed (the order the model's apply_patches has) *)
+Example C13_rejects_after_save_in_source : seq_order_ok = true /\ par_order_ok = true.
+Proof. split; reflexivity. Qed.
